@@ -57,7 +57,7 @@ package poseidon_tree
 //@   property C18 C08
 //@   requires index >= 0 && 1 <= depth && depth <= 63
 //@   ensures result == (bits.bit(index, depth - 1) == 0)
-//@   lemmas pow2_pos bit_bool
+//@   lemmas pow2_pos bit_bool pow2_le_62
 
 //@ func (*PoseidonFullNode) depth
 //@   property C18 C08
